@@ -72,7 +72,7 @@ Always(e) ==
   \* a failed upload is retried with the counter advanced, at most MaxRetries times; then the record is dropped
   /\ Report("X01.RetryProgress",
             \A c \in Chains : \A i \in Consumed(c) :
-               (queue[c][i].kind = "upload" /\ EvOf(e, c, i) = "err") =>
+               (e.act \in AttestNames /\ queue[c][i].kind = "upload" /\ EvOf(e, c, i) = "err") =>     \* (expiry consumes without a walk)
                   IF queue[c][i].retries < MaxRetries
                   THEN \E j \in NewMsgs(c) : queue'[c][j].kind = "upload" /\ queue'[c][j].id = queue[c][i].id
                                              /\ queue'[c][j].retries = queue[c][i].retries + 1
